@@ -14,6 +14,8 @@ EDGE = [('edge:only-function-definitions', 'function f(a) -> a + 1; function g()
          'function f(x) -> if x then print("if:end:1") else print("if:consequent:0"); f(true); f(false); print("if:end:1")'),
         ('edge:identical-bodies-and-entry-code-inside-a-function', 'function a() -> begin print("1\\n"); print("2\\n"); print("3\\n") end; function b() -> begin print("1\\n"); print("2\\n"); print("3\\n") end; '
          'let o = object begin function m() -> 1; function n() -> 1 end; let p = object begin function m() -> 1 end; print("1\\n"); print("2\\n")'),
+        ('edge:objects-with-the-same-fields-in-another-order', 'let p = object begin let x = 1; let y = 2 end; let q = object begin let y = 3; let x = 4 end; let r = object begin let c = 5; let a = 6; let b = 7 end; '
+         'let s = object begin let a = 8; let b = 9; let c = 10 end; let t = object begin let b = p.x; let a = p.y; let c = q end; print("~ ~ ~ ~\\n", p.x, p.y, q.x, q.y); print("~ ~ ~ ~ ~\\n", r.a, r.c, s.a, s.c, t.a); print("~ ~\\n", t, r)'),
         ('edge:field-and-method-of-one-name', 'let o = object begin let value = 42; function value() -> this.value; function m() -> 1; let m = 2 end; print("~ ~ ~ ~ ~\\n", o.value, o.value(), o.m, o.m(), o)')]
 
 
@@ -70,6 +72,39 @@ def over_limit_programs():
                            'let a = array(2, function g() -> 1); a', 'while false do function g() -> 1; print("~\\n", 1 + function g() -> 1)']):
         P.append(('overgrammar:definition-in-value-position-%d' % k, t))
     return [{'name': n, 'text': t, 'ast': None} for n, t in P]
+
+
+def let_slot_programs():
+    """a `let` written directly in an operand slot (it declares its variable in the scope the expression stands in, not in a scope of its own), the variable used afterwards, in every frame kind"""
+    slots = {
+        'array-size-constant-init': 'let t = array(let v = 3, 0); print("~ ~\\n", t, v)',
+        'array-size-compound-init': 'let k = 0; let t = array(let v = 3, k <- k + 2); print("~ ~\\n", t, v)',
+        'call-argument': 'print("~\\n", add(let v = 4, v + 1)); print("~\\n", v)',
+        'method-argument': 'print("~\\n", obj.m(let v = 4)); print("~\\n", v)',
+        'receiver': 'print("~\\n", (let v = obj).m(1)); print("~\\n", v.m(2))',
+        'operator-left': 'print("~\\n", (let v = 6) + 1); print("~\\n", v)',
+        'operator-right': 'print("~\\n", 1 + (let v = 6)); print("~\\n", v)',
+        'index': 'print("~\\n", arr[let v = 1]); print("~\\n", v)',
+        'index-assignment-value': 'arr[0] <- let v = 8; print("~ ~\\n", arr, v)',
+        'if-condition': 'if (let v = true) then print("T\\n") else print("F\\n"); print("~\\n", v)',
+        'if-branch': 'if true then let v = 9 else 0; print("~\\n", v)',
+        'while-condition': 'let n = 0; while (let v = n < 2) do n <- n + 1; print("~ ~\\n", n, 7)',
+        'print-argument': 'print("~ ", let v = 2); print("~\\n", v)',
+        'field-initializer': 'let t = object begin let f = let v = 3 end; print("~ ~\\n", t, v)',
+        'object-parent': 'let t = object extends (let v = 5) begin let f = 1 end; print("~ ~\\n", t + 1, v)',
+        'assignment-value': 'let w = 0; w <- let v = 4; print("~ ~\\n", w, v)',
+        'let-initializer': 'let w = let v = 4; print("~ ~\\n", w, v)',
+    }
+    pre = 'function add(a, b) -> a + b; let obj = object begin function m(k) -> k * 10 end; '
+    out = []
+    for sn, body in slots.items():
+        frames = {'top': pre + 'let arr = array(2, 0); ' + body,
+                  'block': pre + 'begin let arr = array(2, 0); ' + body + ' end',
+                  'fun': pre + 'function f() -> begin let arr = array(2, 0); ' + body + ' end; f()',
+                  'meth': pre + 'let h = object begin function g() -> begin let arr = array(2, 0); ' + body + ' end end; h.g()'}
+        for fn, t in frames.items():
+            out.append({'name': 'letslot:%s/%s' % (sn, fn), 'text': t, 'ast': None})
+    return out
 
 
 def sandwich_programs():
